@@ -16,7 +16,7 @@ RULE = ("base well-formed sequences x {identity, copy, via-relative, shuffled in
         "on the real equals decides every call. Non-trivial: the oracle confirms that the pair differs in exactly the "
         "perturbed attribute (or not at all for the equal families).")
 PLAN = {"quick": {"cases": 2500, "jobs": 4, "timeout": 600},
-        "thorough": {"cases": 120000, "jobs": 16, "timeout": 3000, "budget_s": 420}}
+        "thorough": {"cases": 2000000, "jobs": 16, "timeout": 3000, "budget_s": 360}}
 FLOORS = {"quick": {"equals.verdict.armed": 60000, "c17.expected_unequal_calls": 10000, "c17.expected_equal_calls": 10000},
           "thorough": {"equals.verdict.armed": 1500000}}
 PERT = ["none", "pitch", "onset_keep_order", "onset_change_order", "duration", "velocity", "channel", "ts_value", "ts_tick",
